@@ -996,8 +996,10 @@ Qed.
 (** ** The hypothesis "operands are held" is necessary.  The same history
     with f = 10 NOT held ([OIncref 10] omitted): the aborted first attempt
     is followed by sifting, whose initial collection frees node 10; the
-    second attempt fails with [KeyError], and dynamic reordering is left
-    switched off.  Without the trigger the call succeeds. *)
+    second attempt fails with [KeyError] (dynamic reordering stays enabled:
+    the wrapper restores the threshold whatever the outcome of the retry,
+    since the repair of dd's [_try_to_reorder]).  Without the trigger the call
+    succeeds. *)
 Example unheld_operand_lost :
   let hist := [ONew [(0, 0); (1, 1); (2, 2); (3, 3)];
      OVar 0; OIncref 2; OVar 1; OIncref 3; OVar 2; OIncref 4; OVar 3; OIncref 5;
@@ -1012,5 +1014,5 @@ Example unheld_operand_lost :
   snd (step w0 0 o) = Ok (VZ 12) ∧
   snd (step w1 0 o) = Err EKey ∧
   last_len (world_get w1 0) = Some 100 ∧
-  last_len (world_get (fst (step w1 0 o)) 0) = None.
+  bool_decide (is_Some (last_len (world_get (fst (step w1 0 o)) 0))) = true.
 Proof. by vm_compute. Qed.
